@@ -19,7 +19,8 @@ def default_param(k, shape, flags=''):
     """Fixed generic concrete values (distinct, non-zero, positive) used only for typing/replay defaults."""
     n = int(np.prod(shape)) if shape else 1
     vals = 0.5 + 0.25 * ((np.arange(n) * 3 + k) % 7)
-    return jnp.asarray(vals.reshape(shape), dtype=jnp.float64)
+    from .common import _DEFAULT
+    return jnp.asarray(vals.reshape(shape), dtype=_DEFAULT['dtype'])
 
 
 def concrete_params(bld: Builder, e):
